@@ -64,7 +64,9 @@ def _put(V):
     V.cover()
     dup = z3.Select(before["toc"][1], key.z)
     kl, vl = blen(key.z), blen(value.z)
+    n0 = len(st.trace)
     out = V.method(h, "put", [key, value], qual=f"{UKV}.put"); V.dbg = (out, out.exc and out.exc.fields)
+    io = [e for e in st.trace[n0:] if e[0] in ("write", "truncate")]
     F2 = bz(cell.fields["content"])
     after = U.snapshot(h)
     oversize = z3.Or(kl >= 256, vl >= 2 ** 32)
@@ -74,6 +76,14 @@ def _put(V):
         ch2 = ch.extended(key.z, value.z)
         V.ensure("post/file-is-append", F2 == bwrite(bwrite(bwrite(F, ch.P[ch.n], pack_BI(kl, vl)), ch.P[ch.n] + 5, key.z),
                                                      ch.P[ch.n] + 5 + kl, value.z))
+        # the record is written strictly front to back, each write starting where the file ends at that moment, and nothing is cut:
+        # this is what makes every crash image a PREFIX of the final file (header first, so a half-written record is recognisable)
+        chain_ok, at = [z3.BoolVal(all(e[0] == "write" for e in io) and len(io) >= 1)], blen(F)
+        for e in io:
+            if e[0] == "write":
+                chain_ok.append(to_z3(e[2], "int") == at)
+                at = at + blen(bz(e[3]))
+        V.ensure("post/writes-only-append-in-file-order", z3.And(*chain_ok))
         o, l = st.fresh("o", z3.IntSort()), st.fresh("l", z3.IntSort())
         V.ensure("post/committed-bytes-untouched",
                  z3.Implies(z3.And(o >= 0, l >= 0, o + l <= blen(F)), bslice(F2, o, l) == bslice(F, o, l)))
